@@ -537,6 +537,15 @@ func iterations(p *pw.Path) []*iterGroup {
 				out = append(out, stack[n-1])
 				stack = stack[:n-1]
 			}
+		case pw.EvExit:
+			// a return inside a loop of an inlined function leaves its iterations: close the groups opened in that frame
+			for n := len(stack); n > 0 && stack[n-1].begin.Frame == ev.Frame; n = len(stack) {
+				out = append(out, stack[n-1])
+				stack = stack[:n-1]
+			}
+			for _, g := range stack {
+				g.events = append(g.events, ev)
+			}
 		default:
 			for _, g := range stack {
 				g.events = append(g.events, ev)
